@@ -16,6 +16,7 @@ import (
 	"github.com/jamf/regatta/regattapb"
 	"github.com/jamf/regatta/storage/table"
 	"github.com/jamf/regatta/storage/table/fsm"
+	"github.com/lni/dragonboat/v4"
 	"pgregory.net/rapid"
 
 	"verifharness/internal/enginefx"
@@ -38,6 +39,9 @@ type Op struct {
 	Linearizable bool `json:"linearizable,omitempty"`
 	N            int  `json:"n,omitempty"`
 	EmptyEnd     bool `json:"empty_end,omitempty"`
+	// Busy: the consensus read of this operation fails with a transient raft error (read-index queue full); the read must then
+	// fail or still be correct, never fall back to a possibly stale local answer
+	Busy bool `json:"busy,omitempty"`
 }
 
 type Case struct {
@@ -91,11 +95,13 @@ func genCase(t *rapid.T) Case {
 			r := &regattapb.RangeRequest{Table: []byte("t"), Key: q.Key, RangeEnd: q.RangeEnd, Limit: q.Limit, KeysOnly: q.KeysOnly, CountOnly: q.CountOnly, Linearizable: rapid.Bool().Draw(t, "lin")}
 			op.Linearizable = r.Linearizable
 			op.EmptyEnd = q.RangeEnd != nil && len(q.RangeEnd) == 0
+			op.Busy = r.Linearizable && rapid.IntRange(0, 4).Draw(t, "busy") == 0
 			op.Req, _ = r.MarshalVT()
 		case k <= 16:
 			op.Kind = "rotxn"
 			x := pool.Txn(t, "rotxn", true)
 			r := &regattapb.TxnRequest{Table: []byte("t"), Compare: x.Compare, Success: x.Success, Failure: x.Failure}
+			op.Busy = rapid.IntRange(0, 4).Draw(t, "busy") == 0
 			op.Req, _ = r.MarshalVT()
 		default:
 			op.Kind = "catchup"
@@ -132,6 +138,7 @@ func run(c Case, o *vt.Obs) *vt.Failure {
 	ctx := context.Background()
 	lastRev := uint64(0)
 	laggingRead, emptyTxn := false, false
+	busyReads := 0
 	for i, op := range c.Ops {
 		t := tabs[op.Client]
 		switch op.Kind {
@@ -172,8 +179,16 @@ func run(c Case, o *vt.Obs) *vt.Failure {
 			_ = r.UnmarshalVT(op.Req)
 			before := cl.Commit()
 			lag := before - cl.Applied[op.Client]
+			if op.Busy && r.IsReadonly() {
+				cl.FailSyncRead = dragonboat.ErrSystemBusy
+				busyReads++
+			}
 			resp, err := t.Txn(ctx, r)
+			cl.FailSyncRead = nil
 			if err != nil {
+				if op.Busy && r.IsReadonly() {
+					continue // failing cleanly is fine
+				}
 				return vt.Failf(prop+"/write-error", i, "txn: %v", err)
 			}
 			if r.IsReadonly() {
@@ -216,8 +231,16 @@ func run(c Case, o *vt.Obs) *vt.Failure {
 			}
 			commit := cl.Commit()
 			applied := cl.Applied[op.Client]
+			if op.Busy && r.Linearizable {
+				cl.FailSyncRead = dragonboat.ErrSystemBusy
+				busyReads++
+			}
 			resp, err := t.Range(ctx, r)
+			cl.FailSyncRead = nil
 			if err != nil {
+				if op.Busy && r.Linearizable {
+					continue // failing cleanly is fine
+				}
 				return vt.Failf(prop+"/read-error", i, "range: %v", err)
 			}
 			at := applied
@@ -246,6 +269,9 @@ func run(c Case, o *vt.Obs) *vt.Failure {
 	}
 	if emptyTxn {
 		o.Label("txn-with-empty-executed-branch")
+	}
+	if busyReads > 0 {
+		o.Label("consensus-read-fails-transiently")
 	}
 	o.NonTrivial = laggingRead || emptyTxn
 	o.Describe = func() string { return describe(c) }
